@@ -4,11 +4,12 @@ from pyvc.contracts import contract
 _PROP = "attr(self, '{0}')"
 for _name in ("node_lon", "node_lat", "face_node_connectivity"):
     # property reads are deterministic functions of the grid (established under C08); assumed here
-    contract(f"uxarray.grid.grid.Grid.{_name}", trusted=True, props=["C20"],
+    contract(f"uxarray.grid.grid.Grid.{_name}", variant="attr_view", trusted=True, props=["C20"],
              params={"self": "obj('Grid')"}, returns="opaque('DataArray')",
              ensures=[f"same_object(result, attr(self, '{_name}'))"])
 
 # from the property sentence: equal iff same format and identical node_lon, node_lat, face_node_connectivity
+_VIEW = {"callee_variants": {f"uxarray.grid.grid.Grid.{_n}": "attr_view" for _n in ("node_lon", "node_lat", "face_node_connectivity")}}
 _EQ = ("(isinstance_of(other, 'Grid') and self.source_grid_spec == attr(other, 'source_grid_spec')"
        " and da_equals(attr(self, 'node_lon'), attr(other, 'node_lon'))"
        " and da_equals(attr(self, 'node_lat'), attr(other, 'node_lat'))"
@@ -18,9 +19,11 @@ contract("uxarray.grid.grid.Grid.__eq__", props=["C20"],
          params={"self": "obj('Grid')", "other": "opaque"},
          returns="bool",
          ensures=[f"iff(result, {_EQ})",
-                  "implies(not isinstance_of(other, 'Grid'), not result)"])
+                  "implies(not isinstance_of(other, 'Grid'), not result)"],
+         options=_VIEW)
 
 contract("uxarray.grid.grid.Grid.__ne__", props=["C20"],
          params={"self": "obj('Grid')", "other": "opaque"},
          returns="bool",
-         ensures=[f"iff(result, not {_EQ})"])
+         ensures=[f"iff(result, not {_EQ})"],
+         options=_VIEW)
